@@ -21,8 +21,8 @@ from ..common import Verdicts, import_repo, seed
 
 PROP = "C16"
 
-BASE_SN = {1: "a", 2: "a", 3: "e", 4: "e", 5: "append", 6: "1x", 7: "class", 8: "a_2", 9: "x_"}
-EQCLASS = {1: 1, 2: 2, 3: 3, 4: 3, 5: 5, 6: 6, 7: 7, 8: 8, 9: 9}
+BASE_SN = {1: "a", 2: "a", 3: "e", 4: "e", 5: "append", 6: "1x", 7: "class", 8: "a_2", 9: "x_", 10: "items"}
+EQCLASS = {1: 1, 2: 2, 3: 3, 4: 3, 5: 5, 6: 6, 7: 7, 8: 8, 9: 9, 10: 10}
 COPYKINDS = ("copy", "copycopy", "deepcopy", "pickle")
 
 
@@ -322,13 +322,13 @@ def check(tier: str, replay: Optional[str] = None) -> int:
         return v.finish({"states": 1, "transitions": len(hist), "traces_validated_against_impl": 1,
                          "samples": [case["history"]]}, ["replay of one recorded history"])
 
-    cfgs = {"quick": [("perm", 3, "{1,2,5,8,9}", "FALSE", "{}", False),
+    cfgs = {"quick": [("perm", 3, "{1,2,5,8,10}", "FALSE", "{}", False),
                       ("perm_copy", 2, "{1,2}", "FALSE", '{"copy","deepcopy"}', False),
-                      ("det_all", 3, "{1,2,3,4,5,6,7,8,9}", "TRUE", "{}", True),
+                      ("det_all", 3, "{1,2,3,4,5,6,7,8,9,10}", "TRUE", "{}", True),
                       ("det_copy", 2, "{1,2,3,4}", "TRUE", '{"copy","copycopy","deepcopy","pickle"}', True)],
-            "thorough": [("perm", 3, "{1,2,3,4,5,6,7,8,9}", "FALSE", "{}", False),
+            "thorough": [("perm", 3, "{1,2,3,4,5,6,7,8,9,10}", "FALSE", "{}", False),
                          ("perm_copy", 2, "{1,2,3,4}", "FALSE", '{"copy","deepcopy"}', False),
-                         ("det_all", 4, "{1,2,3,4,5,6,7,8,9}", "TRUE", "{}", True),
+                         ("det_all", 4, "{1,2,3,4,5,6,7,8,9,10}", "TRUE", "{}", True),
                          ("det_copy", 3, "{1,2,3,4,8}", "TRUE", '{"copy","copycopy","deepcopy","pickle"}', True)]}[tier]
     states = transitions = 0
     design: Dict[str, Any] = {}
